@@ -55,6 +55,10 @@ THEOREMS = [NS + n for n in [
     "unsupported_raise_iff_warn_logs_partial",
     "immediate_raises_first_partial",
     "hard_unsupported_counterexample",
+    "preprocess_propagates",
+    "preprocess_immediate_raises",
+    "return_in_finally_swallows_immediate",
+    "no_exception_swallowing_on_unsupported_path",
     "generate_resets_messages",
     "level_sites_ok",
     "level_skeletons_ok",
@@ -81,7 +85,7 @@ SKELETON_FUNCS = [
 
 
 def source_files() -> list:
-    fs = ["sqlglot/parser.py", "sqlglot/generator.py", "sqlglot/errors.py"]
+    fs = ["sqlglot/parser.py", "sqlglot/generator.py", "sqlglot/errors.py", "sqlglot/transforms.py"]
     for d in ("parsers", "generators", "dialects"):
         fs += sorted(os.path.relpath(p, REPO) for p in glob.glob(os.path.join(REPO, "sqlglot", d, "*.py")))
     return fs
@@ -367,6 +371,45 @@ class RaiseVisitor(ast.NodeVisitor):
         self.generic_visit(n)
 
 
+def exception_flow_sites():
+    """constructs that can make an exception DISAPPEAR on the way from a `raise UnsupportedError` / `self.unsupported(...)` /
+    `raise_error` site to the caller: `return` / `break` / `continue` inside a `finally:` block (Python discards the in-flight
+    exception), and handlers for SqlglotError / UnsupportedError / ParseError / Exception / bare that do not re-raise.
+    (file, function, kind, detail)"""
+    out = []
+    files = ["sqlglot/parser.py", "sqlglot/generator.py", "sqlglot/transforms.py", "sqlglot/errors.py"]
+    for d in ("parsers", "generators", "dialects"):
+        files += sorted(os.path.relpath(p, REPO) for p in glob.glob(os.path.join(REPO, "sqlglot", d, "*.py")))
+    for rel in files:
+        t = ast.parse(open(os.path.join(REPO, rel), encoding="utf-8").read())
+
+        def walk(node, prefix):
+            for ch in ast.iter_child_nodes(node):
+                if isinstance(ch, (ast.FunctionDef, ast.AsyncFunctionDef, ast.ClassDef)):
+                    walk(ch, prefix + ch.name + ".")
+                    continue
+                if isinstance(ch, ast.Try):
+                    where = prefix.rstrip(".") or "<module>"
+                    for st in ch.finalbody:
+                        for n in ast.walk(st):
+                            if isinstance(n, (ast.Return, ast.Break, ast.Continue)):
+                                out.append((rel, where, "jump-in-finally", type(n).__name__.lower()))
+                    for h in ch.handlers:
+                        names = []
+                        for x in ([h.type] if not isinstance(h.type, ast.Tuple) else h.type.elts):
+                            names.append("<bare>" if x is None else x.id if isinstance(x, ast.Name) else x.attr if isinstance(x, ast.Attribute) else "<expr>")
+                        if not any(nm in EXC_NAMES for nm in names):
+                            continue
+                        reraises = any(isinstance(n, ast.Raise) for st in h.body for n in ast.walk(st))
+                        calls = sorted({(n.func.attr if isinstance(n.func, ast.Attribute) else getattr(n.func, "id", "?"))
+                                        for st in h.body for n in ast.walk(st) if isinstance(n, ast.Call)})
+                        out.append((rel, where, "handler:" + "|".join(names), ("re-raises" if reraises else "swallows") + ":" + ",".join(calls)))
+                walk(ch, prefix)
+
+        walk(t, "")
+    return out
+
+
 def extract_raises():
     def scan(files):
         R, N = [], []
@@ -419,6 +462,10 @@ def translate(chk: Check) -> str:
                    "String × String × String", pr)
     lines += table("unsupportedRaiseSites", "(file, function, class): `raise UnsupportedError(…)` statements on the generating side — all but Generator.unsupported / generate bypass unsupported_level",
                    "String × String × String", gr)
+    ef = exception_flow_sites()
+    chk.cov["exception_flow_sites"] = len(ef)
+    lines += table("exceptionFlowSites", "(file, function, kind, detail): return/break/continue inside finally, and handlers that could swallow a sqlglot error",
+                   "String × String × String × String", ef)
     lines += table("nestedParserSites", "(file, function, callee, error_level argument, count): nested parser / tokenizer constructions reachable from parsing",
                    "String × String × String × String × String", nested)
     lines += ["end SqlglotModel.Generated.C14", ""]
@@ -434,6 +481,40 @@ class LogCap(logging.Handler):
     def emit(self, record):
         self.records.append((record.levelname, record.getMessage()))
 
+
+SITES_REACHED: set = set()   # line numbers of transforms.py unsupported sites reached by some run
+
+
+def transforms_unsupported_sites():
+    """(function, line, kind) of every `raise UnsupportedError(` / `.unsupported(` in transforms.py"""
+    out = []
+    t = ast.parse(open(os.path.join(REPO, "sqlglot", "transforms.py"), encoding="utf-8").read())
+
+    def walk(node, prefix):
+        for ch in ast.iter_child_nodes(node):
+            if isinstance(ch, (ast.FunctionDef, ast.ClassDef)):
+                walk(ch, prefix + ch.name + ".")
+                continue
+            if isinstance(ch, ast.Raise) and isinstance(ch.exc, ast.Call) and getattr(ch.exc.func, "id", getattr(ch.exc.func, "attr", "")) == "UnsupportedError":
+                out.append((prefix.rstrip("."), ch.lineno, "raise"))
+            if isinstance(ch, ast.Call) and isinstance(ch.func, ast.Attribute) and ch.func.attr == "unsupported":
+                out.append((prefix.rstrip("."), ch.lineno, "unsupported"))
+            walk(ch, prefix)
+
+    walk(t, "")
+    return out
+
+
+# statements aimed at the unsupported sites inside transforms.py (reached through a dialect's preprocess([...]) chain)
+UNSUPPORTED_SITE_SQL = [
+    ("SELECT * FROM t CROSS JOIN UNNEST(x)", "presto"),
+    ("SELECT a, b FROM UNNEST(x, y) AS t(a, b)", "presto"),
+    ("SELECT * FROM t CROSS JOIN UNNEST(x) AS u(a, b, c)", "presto"),
+    ("SELECT * FROM t CROSS JOIN UNNEST(x, y) AS u(a, b)", "presto"),
+    ("SELECT * FROM UNNEST(x) AS u(a, b, c)", "presto"),
+    ("SELECT a FROM t CROSS JOIN UNNEST(x) WITH ORDINALITY", "presto"),
+]
+UNSUPPORTED_SITE_WRITES = ["hive", "spark2", "spark", "databricks"]
 
 _CAP = LogCap()
 _TRACE: dict = {"cur": None, "stack": [], "in_validate": 0, "gen": None, "root": None, "sub": 0}
@@ -543,10 +624,27 @@ def install():
     P._parse = _parse
     P.raise_error, P.validate_expression, P._try_parse, P.check_errors = raise_error, validate_expression, _try_parse, check_errors
 
+    import sqlglot.transforms as strans
+    import sys as _sys
+
+    class _RecordingUnsupportedError(strans.UnsupportedError):
+        """records which `raise UnsupportedError(...)` line of transforms.py was reached (site coverage)"""
+
+        def __init__(self, *a, **k):
+            super().__init__(*a, **k)
+            f = _sys._getframe(1)
+            if f.f_code.co_filename.endswith("transforms.py"):
+                SITES_REACHED.add(f.f_lineno)
+
+    strans.UnsupportedError = _RecordingUnsupportedError
+
     G = sgen.Generator
     o_uns = G.unsupported
 
     def unsupported(self, message):
+        f = _sys._getframe(1)
+        if f.f_code.co_filename.endswith("transforms.py"):
+            SITES_REACHED.add(f.f_lineno)
         g = _TRACE["gen"]
         if g is not None:
             g.append((str(message), getattr(self.unsupported_level, "name", str(self.unsupported_level)), len(self.unsupported_messages)))
@@ -1418,7 +1516,12 @@ def report_parse(chk, sql, d, mx, mn, bad):
         sql_min = sql
     b, runs = four_run_relation(sql_min, d, mx, mn)
     text = next((t for k, t in b if k == kind), bad[0][1])
-    key = key0 if msg_keyed else f"parse:{kind}:{abstract(sql_min)}"
+    if msg_keyed:
+        # key on the message of the MINIMISED input (the original may have shown another message of the same raise family)
+        key = f"parse:{kind}:msg={abstract_msg(text.split(': ', 1)[-1])}"
+        _SEEN_KEYS.add(key)
+    else:
+        key = f"parse:{kind}:{abstract(sql_min)}"
     chk.report_violation(key, text,
                          {"kind": "parse", "sql": sql_min, "dialect": d, "max_errors": mx, "max_nodes": mn, "original": sql},
                          {"dialect": d or "", "immediate": runs["IMMEDIATE"]["status"],
@@ -1490,6 +1593,10 @@ def search(chk: Check, hints, gen_hints, budget_s: float) -> None:
             report_gen(chk, sql, read, write, mx, bad)
         chk.case(("gsearch", sql, read, write, mx), nontrivial=runs["RAISE"]["status"] != "returned")
 
+    # every unsupported site inside transforms.py, for all four levels (coverage goes into the evidence)
+    for sql, rd in UNSUPPORTED_SITE_SQL:
+        for wr in UNSUPPORTED_SITE_WRITES:
+            consider_gen(sql, rd, wr, rng.choice([0, 1, 3]))
     for h in hints[:40]:
         consider(*h)
     for h in gen_hints[:40]:
@@ -1544,6 +1651,9 @@ def run(chk: Check) -> None:
     if chk.broken:
         budget *= 3
     search(chk, hints, ghints, budget)
+    sites = transforms_unsupported_sites()
+    chk.cov["transforms_unsupported_sites"] = {"sites": [list(x) for x in sites], "reached_lines": sorted(SITES_REACHED),
+                                               "unreached": [list(x) for x in sites if x[1] not in SITES_REACHED]}
     chk.cov["watchdog_timeouts"] = TIMEOUTS
     if TIMEOUTS:
         chk.note(f"{len(TIMEOUTS)} call(s) into sqlglot hit the 10 s watchdog (skipped; termination is C05's subject): "
